@@ -41,6 +41,9 @@ type Program struct {
 	Start     string   `json:"start"`          // cold | warm | partial
 	GetEvery  int      `json:"getEvery"`       // every n-th Get of a read transaction is a scheduling point
 	Free      bool     `json:"free,omitempty"` // race pass: plain goroutines under the race detector, no scheduler
+	// CacheLimit: size limit of the shared cache manager in bytes (0 = unlimited as before).
+	// With a limit, every finished cache access measures the cached indexes (the prune pass).
+	CacheLimit int64 `json:"cacheLimit,omitempty"`
 }
 
 const prop = "vec"
@@ -173,7 +176,11 @@ func run(raw json.RawMessage, prefix []string) (*vsched.Trace, []schedlib.V, str
 		}
 	}
 	col := models.Collection{UserId: "u", Id: "col", IndexSchema: schema(), UserPlan: models.UserPlan{MaxPointSize: 1 << 20}}
-	mgr := cache.NewManager(-1)
+	mgrSize := int64(-1)
+	if p.CacheLimit > 0 {
+		mgrSize = p.CacheLimit
+	}
+	mgr := cache.NewManager(mgrSize)
 	s, err := shard.NewShard(path, col, mgr)
 	if err != nil {
 		panic(err)
@@ -481,7 +488,7 @@ func siteClass(site string) string {
 }
 
 func master(cfg *harness.Config, rep *harness.Report) {
-	rep.Rule = "programs: searcher sets from {graph search, graph search with _id pre-filter, text, string filter} (2 searchers; thorough 3) x writer {none, insert 2, update a vector, delete 1, delete then insert with node-id reuse, insert 2 meeting a storage error after the index work} x cache state {cold, partially warm, warm}; all interleavings with at most `bound` preemptions at the scheduling points named in the header. Oracle: no storage use after a transaction ended, no failed search, without a writer every concurrent search returns what the same search returns alone, every returned (id, document) is in a committed state that existed during the search, after the run point store + graph = sequential model in commit order and warm answers = cold answers"
+	rep.Rule = "programs: searcher sets from {graph search, graph search with _id pre-filter, text, string filter} (2 searchers; thorough 3) x writer {none, insert 2, update a vector, delete 1, delete then insert with node-id reuse, insert 2 meeting a storage error after the index work} x cache state {cold, partially warm, warm} (two programs with a finite cache size limit, so that the prune pass runs); all interleavings with at most `bound` preemptions at the scheduling points named in the header. Oracle: no storage use after a transaction ended, no failed search, without a writer every concurrent search returns what the same search returns alone, every returned (id, document) is in a committed state that existed during the search, after the run point store + graph = sequential model in commit order and warm answers = cold answers"
 	rep.Assumptions = []string{"the writer's own storage operations are not scheduling points (bbolt hides uncommitted pages from readers; readers and the writer interact through the cache locks, the commit instant and the cache contents)", "one cached index in the schema so that the writer's cache operations come from one goroutine", "map-iteration order inside the code under test is not enumerated"}
 	p := pool.New(pool.Options{CPUsPerWorker: 2, JobTimeout: 300 * time.Second})
 	if cfg.Replay != "" {
@@ -551,6 +558,13 @@ func master(cfg *harness.Config, rep *harness.Report) {
 	programs := mk([]string{"cold", "partial", "warm"}, allW, sets, 8)
 	core := mk([]string{"cold", "warm"}, []string{"none", "del-ins"}, sets[:2], 8)
 	core = append(core, mk([]string{"warm"}, []string{"ins2-storage-fault"}, sets[1:2], 8)...)
+	// a finite cache size (as deployments have): nothing is evicted at 16 MiB, but every finished
+	// cache access runs the prune pass, which measures the shared indexes while other requests use them
+	for _, pr := range mk([]string{"warm"}, []string{"del-ins", "updvec"}, sets[:1], 8) {
+		q := pr.(Program)
+		q.CacheLimit = 16 << 20
+		core = append(core, q)
+	}
 	coreAll := mk([]string{"cold", "warm"}, []string{"none", "updvec", "del-ins"}, sets, 8)
 	type phase struct {
 		name     string
